@@ -13,6 +13,7 @@ judged by TLC; a finding that reproduces prints its KNOWN-FINDING line and its t
 left out of the random driver for that subject; one that no longer reproduces is driven in full.
 """
 import glob
+import itertools
 import json
 import os
 
@@ -21,6 +22,20 @@ import vlib
 LEVEL = "model_checking"
 BIN = "c07"
 TRACE = "Trace_Allocator"
+
+# vlib.tlc names its metadir <module>-<pid>-<milliseconds>: two validations of small trace files started by the
+# thread pool within the same millisecond share (and clean up) one directory.  Give every TLC call its own.
+_tlc = vlib.tlc
+_seq = itertools.count()
+
+
+def _tlc_unique(module, *a, **kw):
+    if not kw.get("metadir"):
+        kw["metadir"] = os.path.join(vlib.WORK, "tlc", "%s-%d-u%d" % (module, os.getpid(), next(_seq)))
+    return _tlc(module, *a, **kw)
+
+
+vlib.tlc = _tlc_unique
 
 
 # ---------------------------------------------------------------- binding self-tests
@@ -119,7 +134,7 @@ def run(ctx):
     excl = ",".join(reproduced)
     vlib.log("findings reproduced by their witness: %s" % (excl or "none"))
     # --- B2 executions and B1 random histories, trigger regions of reproduced findings left out
-    s2 = ctx.harness(BIN, "replay", "b2", extra={"in": beh, "exclude": excl or "none", "sample": 400 if ctx.thorough else 100,
+    s2 = ctx.harness(BIN, "replay", "b2", extra={"in": beh, "exclude": excl or "none", "sample": 400 if ctx.thorough else 200,
                                                   "max_mismatch": 60}, timeout=3000)
     s1 = ctx.harness(BIN, "drive", "b1", extra={"exclude": excl or "none"}, timeout=3000)
     b1files = sorted(glob.glob(os.path.join(s1["_out"], "*.ndjson")))
@@ -169,7 +184,7 @@ def run(ctx):
                    "abstract sizes mapped to the pool's own size-class table; TLC validates a seeded sample of 1/%s of the executions per subject "
                    "plus every execution that differed from the values TLC computed (free must succeed, set of live blocks).  B1: seeded random "
                    "histories (mixed / churn around neighbouring classes / exhaustion), sizes around every class boundary of the pool's table."
-                   % ("5" if ctx.thorough else "4", "400" if ctx.thorough else "100"))
+                   % ("5" if ctx.thorough else "4", "400" if ctx.thorough else "200"))
     if b1files:
         ctx.sample_from_trace(b1files[0], 10)
     if b2files:
